@@ -23,6 +23,14 @@ def node_table(prog):
     return out
 
 
+_MACRO_NAMES = {}
+
+
+def macro_id(name):
+    """macro names as numbers (stable within a process; only equality matters)"""
+    return _MACRO_NAMES.setdefault(name, len(_MACRO_NAMES) + 1)
+
+
 def describe(table):
     rows = []
     index = {id(n): k for k, (n, _) in enumerate(table)}
@@ -36,6 +44,10 @@ def describe(table):
                 kind = ("KWait", n.arguments)
             else:
                 kind = ("KSimple",)
+        elif cls == "MacroNode":
+            kind = ("KMacro", macro_id(n.macro_name))
+        elif cls == "CallMacroNode":
+            kind = ("KCallMacro", macro_id(n.macro_name))
         elif cls == "ErrorInstructionNode":
             if n.instruction_name == "Noop":
                 try:
@@ -118,10 +130,13 @@ class Run:
         interp = self.interp
         nodes = []
         for n, _ in self.table:
+            is_macro = type(n).__name__ == "MacroNode"
+            # a Macro node shows is_registered / run_started_count in the slots it does not otherwise use
             nodes.append([bool(n.started), bool(n.completed), bool(n.failed), int(getattr(n, "child_index", 0)),
                           bool(getattr(n, "children_complete", False)), bool(getattr(n, "lock_acquired", False)),
                           bool(getattr(n, "block_ended", False)), bool(getattr(n, "activated", False)),
-                          bool(getattr(n, "interrupt_registered", False)), int(getattr(n, "run_count", 0))])
+                          bool(n.is_registered) if is_macro else bool(getattr(n, "interrupt_registered", False)),
+                          int(n.run_started_count) if is_macro else int(getattr(n, "run_count", 0))])
         e = self.env.engine
         block = e.tags["Block"].get_value()
         blk = None
